@@ -61,6 +61,9 @@ def run(tier):
         env2 = dict(env); env2.update({'VERIF_ALPHA': 'reduced', 'VERIF_WORK': wf})
         lvl2 = vlib.run_workers(rtbin, 'TestVerifC01', vlib.NCPU, env=env2)
     allr = ra + lvl2
+    for r in allr:
+        if 'HARNESS-NONDETERMINISM' in (r.get('note') or ''):
+            print(r['note']); raise SystemExit(3)
     exhaustive = all(r.get('exhaustive', True) for r in allr) and bool(lvl2)
     for r in allr:
         viols += r.get('violations') or []
